@@ -113,8 +113,20 @@ func runMemstore(args []string) error {
 	for ci, prog := range in.Programs {
 		tr.emit(M{"t": "reset", "case": ci})
 		ms := memstore.NewMemStore()
+		// every other program hands over its keys in ONE reused buffer for the lookup-only and delete calls (a caller that decodes keys
+		// into a scratch buffer); writes that may retain the key get their own copy
+		scratchKey := make([]byte, 0, 64)
 		for _, c := range prog {
 			k, v := kb(c.K), vb(c.V)
+			if ci%2 == 1 && k != nil {
+				switch c.Op {
+				case "Delete", "DeleteIfExists", "Get", "Contains", "IsTombstoned":
+					scratchKey = append(scratchKey[:0], k...)
+					k = scratchKey
+				default:
+					k = append([]byte{}, k...)
+				}
+			}
 			var r string
 			switch c.Op {
 			case "Add":
@@ -133,6 +145,7 @@ func runMemstore(args []string) error {
 					r = memErr(err)
 				} else {
 					r = valTok(got)
+					pokeReturned(got)
 				}
 			case "Contains":
 				r = fmt.Sprint(ms.Contains(k))
